@@ -2,9 +2,11 @@
 # seed_run.sh <seeded name> <property>... : apply the seeded patch to /repo, run the checks, undo.
 NAME=$1; shift
 cd /repo && git diff --quiet || { echo "/repo has uncommitted changes"; exit 2; }
+rm -rf /tmp/evidence_backup; cp -r /verif/evidence /tmp/evidence_backup
 git -C /repo apply /verif/seeded/$NAME/patch.diff || { echo "patch does not apply"; exit 2; }
 for P in "$@"; do
   cd /verif && ./check $P --tier ${TIER:-quick} 2>/tmp/seed_run_err.log | grep "VIOLATION\|KNOWN" | head -5
   echo "$NAME $P exit=${PIPESTATUS[0]}"; grep "UNDECIDED" /tmp/seed_run_err.log | head -3
 done
 git -C /repo checkout -- .
+rm -rf /verif/evidence; cp -r /tmp/evidence_backup /verif/evidence; rm -rf /tmp/evidence_backup
